@@ -19,7 +19,7 @@ func (r Readers) Name() string {
 func (Readers) Property() string { return "C19" }
 
 func (r Readers) Generate(seed uint64, tier string) engine.Plan {
-	p := genReaders(seed, r.yield, strings.HasSuffix(tier, "/cold"))
+	p := genReaders(seed, r.yield, strings.HasSuffix(tier, "/cold"), deep(tier))
 	if r.yield {
 		rr := engine.NewPRNG(seed ^ 0x1234)
 		p.Sched.Den = rr.PickInt(2, 4, 8, 16, 64)
@@ -73,6 +73,9 @@ func (r Readers) Execute(pl engine.Plan, c *engine.RunCtx) *engine.Failure {
 				b := execOp(w, op, true, pz[1])
 				c.Status.SetStep(uint64(step), 0)
 				c.LibCalls += 2
+				if a.alias || b.alias {
+					return engine.Failf("C19.result_aliases_bytes", step, "%s returned a STRING that shares memory with a []byte argument: the result is not a value of its arguments (it changes when the caller reuses its buffer, and a concurrent reader of the string conflicts with the buffer's owner)", opName(t, i))
+				}
 				if a.fault != 0 {
 					return faultFail(step, t, i, &a)
 				}
